@@ -57,7 +57,7 @@ $(B)/simx.o: /verif/sim/simx.c /verif/sim/simcommon.h /verif/sim/evmodel.h $(SRC
 $(B)/simx: $(B)/simx.o $(B)/evmodel.o $(B)/logger.o $(B)/version.o $(LIBOBJ)
 	@$(CC) $(CFLAGS) $(WRAPFLAGS_X) -o $@ $^ -lm
 
-$(B)/simp.o: /verif/sim/simp.c $(wildcard $(SRC)/*.h)
+$(B)/simp.o: /verif/sim/simp.c /verif/sim/simp_rt.h $(wildcard $(SRC)/*.h)
 	@$(CC) $(CPPFLAGS) $(CFLAGS) -c -o $@ $<
 
 $(B)/simp: $(B)/simp.o $(LIBOBJ)
